@@ -10,9 +10,65 @@ probe, node, an interpreter of the .m assignments) and its signature is compared
 from __future__ import annotations
 
 import json
+import os
 from typing import Any, Dict, List
 
-from .. import engine, defprog
+from .. import engine, defprog, defs
+
+
+KIND_SWAP = r"""
+import sys, os, json
+sys.path.insert(0, os.environ.get("VF_REPO", "/repo") + "/src"); sys.path.insert(0, "/verif")
+from vf import defs
+order = json.loads(sys.argv[1])
+out = {}
+for tag, root, o in order:
+    e = defs.compile_all(root, o, "gen", import_coredefs=False, langs=("python", "c"))
+    if e is not None:
+        print("ERR", tag, repr(e)); sys.exit(3)
+"""
+
+
+def kind_swap(d: str) -> List[dict]:
+    """one user type name means different KINDS of thing in closures compiled one after the other by one process (an alias of a
+    native type, then a struct, then a message ...): each closure's Python classes have the layout of ITS definitions"""
+    import subprocess
+    import itertools
+    viol = []
+    kinds = {
+        "alias": {"aliases": {"SWAP_T": "double"}, "message_defs": {"USER": {"id": 1500, "fields": {"t": "SWAP_T", "h": "SWAP_T[3]", "n": "int32"}}}},
+        "alias32": {"aliases": {"SWAP_T": "float"}, "message_defs": {"USER": {"id": 1500, "fields": {"t": "SWAP_T", "h": "SWAP_T[3]", "n": "int32"}}}},
+        "struct": {"struct_defs": {"SWAP_T": {"a": "int32", "b": "int32", "c": "int64"}},
+                   "message_defs": {"USER": {"id": 1500, "fields": {"t": "SWAP_T", "h": "SWAP_T[3]", "n": "int32"}}}},
+        "message": {"message_defs": {"SWAP_T": {"id": 1499, "fields": {"a": "int16", "b": "int16"}},
+                                     "USER": {"id": 1500, "fields": {"t": "SWAP_T", "h": "SWAP_T[3]", "n": "int32"}}}},
+    }
+    roots = {}
+    for k, f in kinds.items():
+        r = os.path.join(d, "swap", k)
+        defs.write_prog({"root.yaml": f}, r)
+        roots[k] = os.path.join(r, "root.yaml")
+    for first, second in itertools.permutations(kinds, 2):
+        o1, o2 = os.path.join(d, "swap", f"o_{first}_{second}_1"), os.path.join(d, "swap", f"o_{first}_{second}_2")
+        r = subprocess.run(["/venv/bin/python", "-c", KIND_SWAP, json.dumps([[first, roots[first], o1], [second, roots[second], o2]])],
+                           capture_output=True, text=True, timeout=600, env=dict(os.environ, PYTHONHASHSEED="0"))
+        if r.returncode != 0:
+            viol.append({"signature": "C04/CompilerRejected/second-closure-in-one-process", "replay": {"first": first, "second": second, "out": (r.stdout + r.stderr)[-500:]}})
+            continue
+        p, err = defs.parse(roots[second], import_coredefs=False)
+        psig = defs.parser_signature(p)
+        py, perr = defs.sig_python(os.path.join(o2, "gen.py"))
+        if py is None:
+            viol.append({"signature": "C04/OutputDoesNotLoad/python:after-earlier-compile", "replay": {"first": first, "second": second, "error": perr[-400:]}})
+            continue
+        for name, ent in psig["messages"].items():
+            got = (py.get("messages") or {}).get(name)
+            same = got is not None and got.get("size") == ent["size"] and len(got.get("fields", [])) == len(ent["fields"]) and all(
+                e["offset"] in (-1, g.get("offset")) and e["size"] == g.get("size") for e, g in zip(ent["fields"], got.get("fields", [])))
+            if not same:
+                viol.append({"signature": "C04/SizeOrOffset:python:name-changed-kind-between-compiles",
+                             "replay": {"first": first, "second": second, "message": name, "parser": ent, "python": got}})
+    return viol
 
 
 def run(tier: str, seed: int) -> Dict[str, Any]:
@@ -43,6 +99,13 @@ def run(tier: str, seed: int) -> Dict[str, Any]:
                 continue
             seen.add(sig)
             viol.append({"signature": sig, "replay": {"params": p, "detail": detail, "all": [f"{c}: {d}" for c, d in bad][:12]}})
+    import tempfile, shutil
+    kd = tempfile.mkdtemp(prefix="c04_")
+    try:
+        with engine.Quiet():
+            viol += kind_swap(kd)
+    finally:
+        shutil.rmtree(kd, ignore_errors=True)
     cov = {"programs": len(progs), "disagreements_checked": ncmp * 5,
            "states": mc.get("distinct", 0), "tlc_invariants": ["AllNatural", "NativeSane"],
            "languages": ["parser model", "python (ctypes import)", "c (gcc probe: sizeof/offsetof/_Alignof/_Generic)", "javascript (node)", "matlab (assignment interpreter)"],
